@@ -1,44 +1,60 @@
 import Proofs.WrapFinish
+import Proofs.WrapProgress
 /-
 C07 helper: the width invariant of the `wrap_line` loop.
 -/
 namespace Wrap
 
-structure InvW (cfg : Cfg) (sym lw : Nat) (st : St) : Prop where
+structure InvW (fx : Fixes) (cfg : Cfg) (sym lw : Nat) (st : St) : Prop where
   rows : ∀ r ∈ st.result, (∃ init, r = init ++ [(sym, [cfg.leftSym])]) ∧ rowWidth r ≤ lw
-  lenlt : 2 ≤ lw → (st.len < lw ∨ st.stack = [])
+  lenlt : 2 ≤ lw → (st.len < lw ∨ st.stack = [] ∨ (fx.zwPerfectFit = true ∧ allZeroWidth st.stack = true))
   lenle : st.len ≤ lw
+  fits : fx.forceProgress = true → Fits cfg lw st.stack
 
-theorem invW_init (cfg : Cfg) (sym lw : Nat) (line : List Sec) : InvW cfg sym lw (initSt line) := by
-  refine ⟨by simp [initSt], ?_, by simp [initSt]⟩
+theorem invW_init (fx : Fixes) (cfg : Cfg) (sym lw : Nat) (line : List Sec)
+    (hf : fx.forceProgress = true → Fits cfg lw line) : InvW fx cfg sym lw (initSt line) := by
+  refine ⟨by simp [initSt], ?_, by simp [initSt], hf⟩
   intro h; left; simp [initSt]; omega
 
 theorem rowWidth_sym (sym : Nat) (g : G) : rowWidth [(sym, [g])] = g.w := by
   simp [rowWidth, gsWidth]
 
-theorem invW_step {cfg : Cfg} {sym lw : Nat} {line : List Sec} (hsym : cfg.leftSym.w ≤ 1) (st st' : St)
-    (hl : InvL cfg lw line st) (hi : InvW cfg sym lw st) (h : StepRel cfg sym lw st st') :
-    InvW cfg sym lw st' := by
-  obtain ⟨hrows, hlt, hle⟩ := hi
+/-- At a split the current row is not yet full. -/
+theorem len_lt_of_split {fx : Fixes} {lw : Nat} {st : St} {style : Nat} {gs : List G} {rest : List Sec}
+    (hs : st.stack = (style, gs) :: rest) (h2 : 2 ≤ lw)
+    (hlt : 2 ≤ lw → (st.len < lw ∨ st.stack = [] ∨ (fx.zwPerfectFit = true ∧ allZeroWidth st.stack = true)))
+    (hle : st.len ≤ lw) (hge : lw ≤ st.len + gsWidth gs)
+    (hnf : ¬ (st.len + gsWidth gs = lw ∧ PerfectRest fx rest)) : st.len < lw := by
+  rcases hlt h2 with h | h | h
+  · exact h
+  · rw [hs] at h; cases h
+  · rw [hs, allZeroWidth_cons] at h
+    obtain ⟨hz, hgs, hr⟩ := h
+    simp only at hgs
+    exact absurd ⟨by omega, Or.inr (Or.inr ⟨hz, hr⟩)⟩ hnf
+
+theorem invW_step {fx : Fixes} {cfg : Cfg} {sym lw : Nat} {line : List Sec} (hsym : cfg.leftSym.w ≤ 1)
+    (st st' : St) (hl : InvL cfg lw line st) (hi : InvW fx cfg sym lw st)
+    (h : StepRel fx cfg sym lw st st') : InvW fx cfg sym lw st' := by
+  have hfits' : fx.forceProgress = true → Fits cfg lw st'.stack := fun hf => fits_step (hi.fits hf) h
+  obtain ⟨hrows, hlt, hle, hfits⟩ := hi
   have hcur := hl.len
   cases h with
   | push style gs rest hs hlim hfit =>
-    refine ⟨hrows, ?_, ?_⟩
+    refine ⟨hrows, ?_, ?_, hfits'⟩
     · intro _
-      cases hfit with
-      | inl h1 => left; exact h1
-      | inr h2 => right; exact h2.2
+      rcases hfit with h1 | ⟨_, h2 | h3⟩
+      · left; exact h1
+      · right; left; exact h2
+      · right; right; exact h3
     · simp only; omega
   | nl style gs rest hs hlim heq hnl =>
-    refine ⟨hrows, fun _ => Or.inr rfl, ?_⟩
+    refine ⟨hrows, fun _ => Or.inr (Or.inl rfl), ?_, hfits'⟩
     simp only; omega
-  | split0 style gs rest hs hlim hge hnf hw =>
+  | split0 style gs rest hs hlim hge hnf hw hns =>
     have h2 := lw_ge_two_of_not_limit hlim
-    have hlen : st.len < lw := by
-      cases hlt h2 with
-      | inl h => exact h
-      | inr h => rw [hs] at h; cases h
-    refine ⟨?_, fun _ => Or.inl (by simp only; omega), by simp⟩
+    have hlen : st.len < lw := len_lt_of_split hs h2 hlt hle hge hnf
+    refine ⟨?_, fun _ => Or.inl (by simp only; omega), by simp, hfits'⟩
     intro r hr
     simp only [List.mem_append, List.mem_singleton] at hr
     cases hr with
@@ -50,19 +66,23 @@ theorem invW_step {cfg : Cfg} {sym lw : Nat} {line : List Sec} (hsym : cfg.leftS
       omega
   | splitk style gs rest hs hlim hge hnf hw =>
     have h2 := lw_ge_two_of_not_limit hlim
-    have hlen : st.len < lw := by
-      cases hlt h2 with
-      | inl h => exact h
-      | inr h => rw [hs] at h; cases h
-    refine ⟨?_, fun _ => Or.inl (by simp only; omega), by simp⟩
+    have hlen : st.len < lw := len_lt_of_split hs h2 hlt hle hge hnf
+    refine ⟨?_, fun _ => Or.inl (by simp only; omega), by simp, hfits'⟩
     intro r hr
     simp only [List.mem_append, List.mem_singleton] at hr
     cases hr with
     | inl h => exact hrows r h
     | inr h =>
       subst h
-      refine ⟨⟨st.curr ++ [(style, (takeFit ((gsWidth gs - (st.len + gsWidth gs - lw)) - cfg.leftSym.w) gs).1)], by simp⟩, ?_⟩
-      have ht := takeFit_width ((gsWidth gs - (st.len + gsWidth gs - lw)) - cfg.leftSym.w) gs
+      refine ⟨⟨st.curr ++ [(style, (takeFit (widthLeftF fx cfg lw st.len gs) gs).1)], by simp⟩, ?_⟩
+      have ht := takeFit_width (widthLeftF fx cfg lw st.len gs) gs
+      have hwl : widthLeftF fx cfg lw st.len gs = (gsWidth gs - (st.len + gsWidth gs - lw)) - cfg.leftSym.w := by
+        cases hfp : fx.forceProgress with
+        | false => unfold widthLeftF; simp [hfp]
+        | true =>
+          have hfs : ∀ g ∈ gs, g.w + cfg.leftSym.w ≤ lw := hfits hfp (style, gs) (by rw [hs]; simp)
+          exact widthLeftF_fits hfs hlen hge
+      rw [hwl] at ht ⊢
       rw [rowWidth_append, hcur]
       simp only [rowWidth, gsWidth]
       omega
